@@ -136,6 +136,19 @@ func prepare() *prepInfo {
 	mustRun("", nil, "chmod", "-R", "u+w", S+"/antlr")
 	mustRun(S+"/antlr", nil, "sh", "-c", "find . -name '*_test.go' -delete")
 	copyFile(verifDir+"/overlays/antlr_mutex.go.txt", S+"/antlr/mutex.go")
+	// range-over-func (the map seam) needs go >= 1.23 in the module's go.mod
+	if b, err := os.ReadFile(S + "/antlr/go.mod"); err == nil {
+		lines := strings.Split(string(b), "\n")
+		for i, l := range lines {
+			if strings.HasPrefix(l, "go ") {
+				lines[i] = "go 1.23.0"
+			}
+			if strings.HasPrefix(l, "toolchain ") {
+				lines[i] = ""
+			}
+		}
+		_ = os.WriteFile(S+"/antlr/go.mod", []byte(strings.Join(lines, "\n")), 0o644)
+	}
 
 	// 4. simrt
 	mustRun("", nil, "cp", "-r", verifDir+"/simrt", S+"/simrt")
@@ -198,10 +211,14 @@ func copyFile(src, dst string) {
 func buildWorker(race bool) string {
 	S := scratch
 	bin := S + "/bin/worker"
-	args := []string{"build", "-trimpath", "-tags", "safe", "-o"}
+	tags := "safe"
+	if x := os.Getenv("VERIF_EXTRA_TAGS"); x != "" {
+		tags += "," + x // sensitivity tests only, e.g. antlr.nomutex
+	}
+	args := []string{"build", "-trimpath", "-tags", tags, "-o"}
 	if race {
 		bin += "-race"
-		args = []string{"build", "-trimpath", "-race", "-tags", "safe", "-o"}
+		args = []string{"build", "-trimpath", "-race", "-tags", tags, "-o"}
 	}
 	args = append(args, bin, ".")
 	out, err := run(S+"/worker", goEnv(), "go", args...)
@@ -325,7 +342,7 @@ func runShards(bin string, engine, prop, tier string, seed uint64, n int, maxSec
 				args = append(args, "-race")
 			}
 			cmd := exec.Command(bin, args...)
-			cmd.Env = append(os.Environ(), "GOMAXPROCS=1", "GORACE=log_path="+S+"/race-"+tag+" halt_on_error=0 history_size=4")
+			cmd.Env = append(os.Environ(), "GOMAXPROCS=1", "GORACE=log_path="+S+"/race-"+tag+" halt_on_error=0 exitcode=0 history_size=4", "VERIF_RACELOG="+S+"/race-"+tag)
 			logf, _ := os.Create(fmt.Sprintf("%s/log-%s.txt", S, tag))
 			cmd.Stderr = logf
 			cmd.Stdout = logf
@@ -514,11 +531,11 @@ func cmdCheck(prop, tier string) int {
 		var wg sync.WaitGroup
 		wg.Add(2)
 		ragg := newAggregate()
-		rn := n / 5
+		rn := n / 6
 		if rn < 8 {
 			rn = 8
 		}
-		rshards := nshards / 4
+		rshards := nshards * 3 / 8
 		if rshards < 1 {
 			rshards = 1
 		}
@@ -585,7 +602,11 @@ func cmdCheck(prop, tier string) int {
 			wbin = scratch + "/bin/worker-race"
 		}
 		final := raw
-		if out, err := run("", append(os.Environ(), "GOMAXPROCS=1"), wbin, "replay", "-minimise", "-file", raw, "-out", min, "-known", verifDir+"/known_findings.json"); err == nil {
+		if v.RaceReport != "" {
+			// race reports are deduplicated per process, so candidates cannot be
+			// re-executed in one process: the recorded workload and tape are
+			// reported as they are
+		} else if out, err := run("", append(os.Environ(), "GOMAXPROCS=1"), wbin, "replay", "-minimise", "-file", raw, "-out", min, "-known", verifDir+"/known_findings.json"); err == nil {
 			final = min
 		} else {
 			fmt.Fprintf(os.Stderr, "driver: minimisation failed (%v): %s\n", err, out)
@@ -660,7 +681,7 @@ func cmdReplay(file string) int {
 	defer cleanup()
 	bin := buildWorker(v.RaceReport != "")
 	out := scratch + "/replay-out.json"
-	o, err := run("", append(os.Environ(), "GOMAXPROCS=1", "GORACE=log_path="+scratch+"/race-replay halt_on_error=0 history_size=4"), bin, "replay", "-file", file, "-out", out, "-known", verifDir+"/known_findings.json")
+	o, err := run("", append(os.Environ(), "GOMAXPROCS=1", "GORACE=log_path="+scratch+"/race-replay halt_on_error=0 exitcode=0 history_size=4", "VERIF_RACELOG="+scratch+"/race-replay"), bin, "replay", "-file", file, "-out", out, "-known", verifDir+"/known_findings.json")
 	if err != nil {
 		fatal2("replay worker failed: %v\n%s", err, o)
 	}
